@@ -105,6 +105,7 @@ RowOpsOK(ev) ==
     [] op = "row_add_offset" -> Eq(res, RowAddOffsetSem(A, p.dst, p.src, p.off))
     [] op = "row_clear_offset" -> Eq(res, RowClearOffsetSem(A, p.row, p.off))
     [] op = "xor_bits" -> Eq(res, XorBitsSem(A, p.x, p.y, p.n, BitsAt(p.L_v)))
+    [] op = "and_bits" -> Eq(res, AndBitsSem(A, p.x, p.y, p.n, BitsAt(p.L_v)))
     [] op = "clear_bits" -> Eq(res, ClearBitsSem(A, p.x, p.y, p.n))
     [] op \in {"read_bits", "read_bits_int"} -> Eq(res, A) /\ BitsAt(p.L_got) = ReadBitsSem(A, p.x, p.y, p.n)
     [] op = "write_bit" -> Eq(res, WriteBitSem(A, p.x, p.y, p.v))
@@ -118,7 +119,7 @@ RowOpsOK(ev) ==
     [] op = "apply_p_right_capped" -> Eq(res, IF p.sr >= A.m THEN A ELSE Embed(A, p.sr, 0, ApplyPRightSem(Sub(A, p.sr, 0, A.m - p.sr, A.n), p.P)))
     [] op = "apply_p_right_trans_capped" -> Eq(res, IF p.sr >= A.m THEN A ELSE Embed(A, p.sr, 0, ApplyPRightTransSem(Sub(A, p.sr, 0, A.m - p.sr, A.n), p.P)))
 RowOpsFamily == {"row_swap", "col_swap", "col_swap_in_rows", "row_add", "row_add_offset",
-                 "row_clear_offset", "xor_bits", "clear_bits", "read_bits", "read_bits_int",
+                 "row_clear_offset", "xor_bits", "and_bits", "clear_bits", "read_bits", "read_bits_int",
                  "write_bit", "read_bit", "combine", "apply_p_left", "apply_p_left_trans",
                  "apply_p_right", "apply_p_right_trans", "apply_p_right_trans_tri",
                  "apply_p_right_capped", "apply_p_right_trans_capped"}
